@@ -124,7 +124,7 @@ def run_real(case):
     for lg in loggers:
         lg.addHandler(h)
         lg.propagate = False
-    depth = len(logging_context_handler.processing_stack)
+    depth = len(logging_context_handler.get_processing_stack())     # public getter: how the handler stores its stack is its business
     out, exc = None, None
     try:
         try:
@@ -136,7 +136,7 @@ def run_real(case):
             lg.removeHandler(h)
             lg.propagate = pr
         # an exception inside `with logging_context` pops correctly; be defensive anyway
-        while len(logging_context_handler.processing_stack) > depth:
+        while len(logging_context_handler.get_processing_stack()) > depth:
             logging_context_handler.pop()
     return {"out": out, "exc": exc, "recs": h.recs}
 
@@ -155,6 +155,7 @@ def classify_exception(e):
         k = "keyTooLong" if "no longer than" in msg else "keyNoLetter" if "at least one letter" in msg else "actionError"
         return {"kind": k, "class": name, "msg": msg[:300]}
     if name == "RapidProTriggerError":
+        # the flow is what the message names; recognised wording gives it exactly, otherwise it stays open (None)
         m = re.match(r"Trigger references undefined flow name (.*)$", msg, re.S)
         return {"kind": "undefinedFlow", "name": m.group(1) if m else None, "class": name, "msg": msg[:300]}
     return {"kind": name, "class": name, "msg": msg[:300]}
@@ -167,6 +168,25 @@ CRIT_KINDS = [
     ("Trigger must have flow", "needsFlow"),
     ("Trigger group must have a name", "groupNeedsName"),
 ]
+
+
+def same_exc_kind(real_kind: str, model_kind: str) -> bool:
+    """exception kinds agree; a RapidProActionError whose wording is not recognised (`actionError`: the CLASS is the
+    robust signal) agrees with either field-key problem"""
+    return real_kind == model_kind or (real_kind == "actionError" and model_kind in ("keyTooLong", "keyNoLetter"))
+
+
+def same_records(real_recs, model_recs) -> bool:
+    """classified CRITICAL records agree: level, sheet and row always; the kind where the wording is recognised (a
+    record in words not on record — `other:…` — is tied by level and position only)"""
+    if len(real_recs) != len(model_recs):
+        return False
+    for a, b in zip(real_recs, model_recs):
+        if list(a) == list(b):
+            continue
+        if not (isinstance(a[3], str) and a[3].startswith("other:") and list(a[:3]) == list(b[:3])):
+            return False
+    return True
 
 
 def classify_record(rec):
@@ -1023,11 +1043,11 @@ def case_worker(cases):
             rk = real["exc"]
             if rk is None:
                 tie = {"why": "model predicts an exception, real code raised none", "model": pred["exc"], "real_records": [classify_record(r) for r in real["recs"]][:4]}
-            elif rk["kind"] != pred["exc"]["kind"]:
+            elif not same_exc_kind(rk["kind"], pred["exc"]["kind"]):
                 tie = {"why": "exception class differs", "model": pred["exc"], "real": rk}
             elif rk["kind"] == "validation" and not c.get("missing_required") and rk["fields"] != pred["exc"].get("fields"):
                 tie = {"why": "failing fields differ", "model": pred["exc"], "real": rk}
-            elif rk["kind"] == "undefinedFlow" and rk.get("name") != pred["exc"].get("name"):
+            elif rk["kind"] == "undefinedFlow" and rk.get("name") is not None and rk.get("name") != pred["exc"].get("name"):
                 tie = {"why": "undefined flow name differs", "model": pred["exc"], "real": rk}
         else:
             cnt("outcome.critical" if pred["crits"] else "outcome.accepted")
@@ -1035,7 +1055,7 @@ def case_worker(cases):
                 tie = {"why": "real code raised, model predicts none", "real": real["exc"]}
             else:
                 rrecs = [classify_record(r) for r in real["recs"]]
-                if rrecs != pred["crits"]:
+                if not same_records(rrecs, pred["crits"]):
                     tie = {"why": "CRITICAL records differ", "model": pred["crits"], "real": rrecs}
                 else:
                     md = canon_uuids({"campaigns": pred["campaigns"], "triggers": pred["triggers"], "flows": pred["flows"]})
